@@ -50,6 +50,21 @@ def corpus(ck, quick):
             progs.append((name, src, m, []))
     except ImportError:
         pass
+    # several runs on one interpreter (what a failed run leaves behind is used by the next; paced collection in the
+    # optimised builds, collection at every allocation in the checked one): `src` is then a list of steps
+    from ..gen import feat_repl
+    rh = ck.rng.fork("histories")
+    for i in range(240 if quick else 6000):
+        steps, hm = feat_repl.history(rh.fork(str(i)))
+        # in one history of eight, allocation between the runs (about 80 KiB, more than the collector's first budget), so that
+        # the paced collector of the optimised builds runs between a failed run and the use of what it left behind
+        churn_step = ("snip", "var churn_keep = []; for ci in 0..400 { churn_keep = [ci, [churn_keep.len()], \"c${ci}\"]; }\n")
+        withchurn = []
+        for st in steps:
+            withchurn.append(st)
+            if st[0] == "snip" and i % 8 == 0:
+                withchurn.append(churn_step)
+        progs.append(("history/%d" % i, [tuple(x) for x in withchurn], hm, []))
     return progs
 
 
@@ -62,7 +77,7 @@ def run(tier):
         cfgs = ["dev"] + [common.rel_subset_name(m) for m in range(32)]
     common.build(cfgs + ["hookfast"])
     progs = corpus(ck, quick)
-    cases = [mk_case("p%d" % i, [snip(src)], {}, mods, gl) for i, (name, src, mods, gl) in enumerate(progs)]
+    cases = [mk_case("p%d" % i, src if isinstance(src, list) else [snip(src)], {}, mods, gl) for i, (name, src, mods, gl) in enumerate(progs)]
     outs = {}
     tmo = common.batch_timeout(tier, len(cases) / 8)
     for cfg in cfgs:
@@ -86,7 +101,7 @@ def run(tier):
                 "outcomes": {c: common.outcome_of(outs[c][i])[1][:1500] if common.outcome_of(outs[c][i])[0] == "ran"
                              else str(common.outcome_of(outs[c][i])) for c in [ref] + differing[:3]}})
         if base[0] == "ran" and len(base[1]) > 40:
-            ck.note_nontrivial(src)
+            ck.note_nontrivial(repr(src))
         if len(ck.samples) < 3 and name.startswith("churn"):
             ck.sample({"program": name, "source": src[-300:], "outcome": base[1][:200]})
     # raw active-fiber pointer coherence on the unchecked build with hooks
@@ -130,7 +145,8 @@ def kind_of(res):
 def replay(data):
     cfgs = ["dev", "rel", "rel-15", "rel-16"]
     common.build(cfgs)
-    case = mk_case("replay", [snip(data["source"])], {}, data.get("modules"), data.get("globals"))
+    src = data["source"]
+    case = mk_case("replay", [tuple(x) for x in src] if isinstance(src, list) else [snip(src)], {}, data.get("modules"), data.get("globals"))
     outs = [common.outcome_of(common.run_batch(c, [case], shards=1, timeout=600)[0]) for c in cfgs]
     for c, o in zip(cfgs, outs):
         print(c, str(o)[:800])
